@@ -131,12 +131,41 @@ import keyword
 
 ACTIVATION_ATTRS = {"identifiers", "functions", "package", "clone", "get", "nested_activation", "resolve_variable", "resolve_function"}
 PY_KEYWORDS = set(keyword.kwlist)
+MACRO_NAMES = {"map", "filter", "all", "exists", "exists_one"}
+
+
+def rename_python_keywords(n: Node) -> Node:
+    """The same tree with every identifier / field name that is a Python keyword given a harmless spelling (for differential re-runs)."""
+
+    def go(x):
+        if isinstance(x, Node):
+            if x.k == "var" and x.a[0] in PY_KEYWORDS:
+                return Node("var", x.t, x.a[0] + "_kw")
+            if x.k in ("field", "has") and isinstance(x.a[1], str) and x.a[1] in PY_KEYWORDS:
+                return Node(x.k, x.t, go(x.a[0]), x.a[1] + "_kw", *x.a[2:])
+            return Node(x.k, x.t, *[go(y) for y in x.a])
+        if isinstance(x, tuple):
+            return tuple(go(y) for y in x)
+        if isinstance(x, list):
+            return [go(y) for y in x]
+        return x
+
+    return go(n)
+
+
+def has_python_keyword_name(n: Node) -> bool:
+    from .lang import walk
+
+    return any((x.k == "var" and x.a[0] in PY_KEYWORDS) or (x.k in ("field", "has") and isinstance(x.a[1], str) and x.a[1] in PY_KEYWORDS) for x in walk(n))
 
 
 def head(n: Node) -> str:
     if n.k in ("bin", "un"):
         return f"{n.k} {n.a[0]}"
     if n.k in ("call", "meth"):
+        if n.k == "meth" and n.a[0] in MACRO_NAMES and len(n.a) > 2 and getattr(n.a[2], "k", None) == "raw" and len(n.a[2].a) > 3 and n.a[2].a[3] == "dot_ident":
+            # a macro whose iteration variable is written with a leading dot (.e): not an identifier, so no macro node was built
+            return f"meth {n.a[0]}/{len(n.a) - 1}:dot-identifier-variable"
         return f"{n.k} {n.a[0]}/{len(n.a) - 1}"
     if n.k == "macro":
         return f"macro {n.a[0]}"
